@@ -12,6 +12,8 @@ pub enum Status {
     AtYield,
     Running,
     Finished,
+    /// parked in `block_until`: schedulable only when its condition holds
+    Blocked,
 }
 pub struct Decision {
     pub runnable: Vec<usize>,
@@ -31,6 +33,8 @@ pub struct State {
     pub objects: Vec<(usize, usize)>, // (base, size)
     pub exit_at_write: usize,          // crash injection: _exit at the n-th shared-memory write (0 = off)
     pub writes: usize,
+    pub conds: Vec<Option<Box<dyn Fn() -> bool + Send>>>,
+    pub deadlock: bool,
 }
 pub static SCHED: Mutex<Option<State>> = Mutex::new(None);
 /// component-specific: which events are traced (all are yield points), what a `crit` record reports
@@ -154,10 +158,18 @@ fn next_rand(s: &mut State) -> u64 {
 
 /// called with the lock held by a thread that is itself parked (AtYield) or finished
 fn pick(s: &mut State, me: Option<usize>) {
-    let runnable: Vec<usize> = (0..s.status.len()).filter(|&i| s.status[i] == Status::AtYield).collect();
+    let mut runnable: Vec<usize> = (0..s.status.len())
+        .filter(|&i| s.status[i] == Status::AtYield || (s.status[i] == Status::Blocked && (s.deadlock || s.conds[i].as_ref().map(|c| c()).unwrap_or(true))))
+        .collect();
     if runnable.is_empty() {
-        s.current = None;
-        return;
+        if (0..s.status.len()).any(|i| s.status[i] == Status::Blocked) {
+            // every unfinished thread sleeps on a condition nobody can make true any more
+            s.deadlock = true;
+            runnable = (0..s.status.len()).filter(|&i| s.status[i] == Status::Blocked).collect();
+        } else {
+            s.current = None;
+            return;
+        }
     }
     let prev = me.filter(|m| runnable.contains(m));
     let chosen = if s.pos < s.schedule.len() && runnable.contains(&s.schedule[s.pos]) {
@@ -195,6 +207,32 @@ fn yield_point(tid: usize) {
         g = CV.wait(g).unwrap();
     }
     g.as_mut().unwrap().status[tid] = Status::Running;
+}
+
+/// A blocking primitive (semaphore wait, socket read) under the baton scheduler: the thread is not
+/// schedulable until `cond` holds.  Returns false when every unfinished thread is blocked for good
+/// (deadlock): a `deadlock` record is written and the caller gives up.
+pub fn block_until(tid: usize, cond: Box<dyn Fn() -> bool + Send>) -> bool {
+    let mut g = SCHED.lock().unwrap();
+    {
+        let s = g.as_mut().unwrap();
+        s.steps += 1;
+        s.status[tid] = Status::Blocked;
+        s.conds[tid] = Some(cond);
+        pick(s, Some(tid));
+    }
+    CV.notify_all();
+    while g.as_ref().unwrap().current != Some(tid) {
+        g = CV.wait(g).unwrap();
+    }
+    let s = g.as_mut().unwrap();
+    s.status[tid] = Status::Running;
+    s.conds[tid] = None;
+    if s.deadlock {
+        s.trace.push(format!("T{tid} deadlock"));
+        return false;
+    }
+    true
 }
 
 fn keep(kind: u8, addr: usize, width: u8) -> bool {
@@ -256,6 +294,9 @@ unsafe fn libc_exit() -> ! {
 }
 /// an explicit scheduling point of the harness itself (a decision that depends on what other
 /// threads did must be a visible step): yields, then records `T<tid> cell gate`
+pub fn current_tid() -> Option<usize> {
+    TID.with(|t| t.get())
+}
 pub fn gate(tid: usize) {
     yield_point(tid);
     record(tid, "cell gate".to_string());
@@ -277,6 +318,7 @@ pub fn execute(bodies: Vec<Box<dyn FnOnce(usize) + Send>>, schedule: Vec<usize>,
     *SCHED.lock().unwrap() = Some(State {
         current: None, status: vec![Status::NotStarted; n], schedule, pos: 0, decisions: vec![], trace: vec![], steps: 0,
         rng: seed, random, objects, exit_at_write: std::env::var("VERIF_EXIT_AT_WRITE").ok().and_then(|v| v.parse().ok()).unwrap_or(0), writes: 0,
+        conds: (0..n).map(|_| None).collect(), deadlock: false,
     });
     let mut handles = vec![];
     for (tid, body) in bodies.into_iter().enumerate() {
